@@ -35,7 +35,7 @@ type seqEntrySpec struct {
 	Size    int    `json:"size,omitempty"`
 	Issuers []int  `json:"issuers,omitempty"` // ids of issuer blobs
 	Seed    uint64 `json:"seed"`
-	DupOf   int    `json:"dup_of,omitempty"` // 1+id of an entry with the same dedup key but different uncovered data
+	DupOf   int    `json:"dup_of,omitempty"`  // 1+id of an entry with the same dedup key but different uncovered data
 	TwinOf  int    `json:"twin_of,omitempty"` // 1+id of a precertificate entry with the same TBS bytes under ANOTHER issuer key: a different entry
 }
 
